@@ -567,6 +567,10 @@ class Bits:
             if offset == 0:
                 self._filename = source.name
                 self._bitstore = BitStore.frombuffer(m, length=length)
+                if length is not None and length < len(self._bitstore._bitarray):
+                    # Only part of the file is wanted. Read just that part into memory, as a store that is
+                    # shorter than its buffer is not honoured by most operations (==, count, +, &, ~, ...).
+                    self._bitstore = self._bitstore.getslice_msb0(0, length)
             else:
                 # If offset is given then always read into memory.
                 temp = BitStore.frombuffer(m)
